@@ -307,7 +307,9 @@ WORK_RULE = ("2 poll methods (epoll-timerfd: one-shot kick; ppoll: raw-event kic
              "the pool struct is freed at once) x every schedule within the preemption bound")
 CHECKS["C12"] = dict(
     quick=[R("h_work", "bound=1", sched=True),
-           R("h_work", "bound=2 methods=0 maxthreads=2 progs=1,4,5,7,8 puts=0,3", sched=True)],
+           R("h_work", "bound=2 methods=0 maxthreads=2 progs=1,4,5,7,8 puts=0,3", sched=True),
+           # NULL pool: work and completion run once, in the submitting thread, from a task
+           R("h_loop", "bound=3 seeds=21,0,1 nfd=1 ntm=1 ntk=1 nev=0 nwk=2 ops=leave,wksubmit,tkreg,quit rules=work-,main-,%s" % ABN)],
     thorough=[R("h_work", "bound=2", sched=True),
               R("h_work", "bound=3 methods=0 maxthreads=2 progs=1,5,7 puts=0", sched=True)],
     rule=WORK_RULE,
